@@ -66,6 +66,10 @@ def main(argv):
             ctx.inconclusive.append("shard aborted by the exception above (counters incomplete)")
         else:
             ctx.inconclusive.append("worker crashed: " + traceback.format_exc()[-3000:])
+    from pv import vloop
+    if vloop.LOG_STATS["debug"] or vloop.LOG_STATS["warning"]:
+        ctx.count("scenarios_run_with_library_loggers_at_debug", vloop.LOG_STATS["debug"])
+        ctx.count("scenarios_run_with_library_loggers_at_warning", vloop.LOG_STATS["warning"])
     res = ctx.dump()
     res["status"] = status
     res["wall_s"] = time.time() - t0
